@@ -22,7 +22,7 @@ import (
 
 func init() {
 	register(&Prop{ID: "C12", Run: runC12, MinNontrivial: 200, Workers: 8,
-		Rule:        "cases = (configured limit L in {unset=5 MiB, 1, 100, 2 KiB, 64 KiB, 1 MiB}) x (document inflating to exactly L-1, L, L+1, 2L, 10L bytes: a valid message padded by a trailing comment, or minimal well-formed XML when L is too small) x DEFLATE level {0,1,6,9,Huffman-only} x the six inbound entry points (the two unverified decoders always have 5 MiB), plus bombs inflating to max(1000 L, 256 MiB) (1 GiB at the default limit in the thorough tier); oracle: size <= limit => same outcome class and same returned data as the uncompressed twin and never an 'exceeds maximum size' error; size > limit => error; on over-limit inputs the call's runtime.MemStats.TotalAlloc delta <= 8 L + 4 |input| + 2 MiB (quiescent single-goroutine worker) and, for bombs, the worker's VmHWM growth <= 8 L + 4 |input| + 64 MiB; the inflate hook's (length, limit) pairs are reported; non-trivial = DEFLATE stream decoded by the library; distinct by parameter tuple; bombs also in zlib and gzip framing; trailing comments filled with non-UTF-8 bytes; class max-ratio: one-run messages inflating to limit-1 / limit bytes (about 1007:1); class ratio-boundary (inflated length = 2..256 x compressed length); class nested-compression (compressed plaintext inside the ciphertext); white-space-only padding after the root; in every second worker process providers with limits of 64 MiB / 1 TiB / 7 bytes / MaxInt64 have handled messages first; class bloated-or-refused-twin: small messages behind runs of empty stored blocks or flushed after every byte (stream longer than the limit, expansion within it), and documents refused as received for a repeated attribute",
+		Rule:        "cases = (configured limit L in {unset=5 MiB, 1, 100, 2 KiB, 64 KiB, 1 MiB}) x (document inflating to exactly L-1, L, L+1, 2L, 10L bytes: a valid message padded by a trailing comment, or minimal well-formed XML when L is too small) x DEFLATE level {0,1,6,9,Huffman-only} x the six inbound entry points (the two unverified decoders always have 5 MiB), plus bombs inflating to max(1000 L, 256 MiB) (1 GiB at the default limit in the thorough tier); oracle: size <= limit => same outcome class and same returned data as the uncompressed twin and never an 'exceeds maximum size' error; size > limit => error; on over-limit inputs the call's runtime.MemStats.TotalAlloc delta <= 8 L + 4 |input| + 2 MiB (quiescent single-goroutine worker) and, for bombs, the worker's VmHWM growth <= 8 L + 4 |input| + 64 MiB; the inflate hook's (length, limit) pairs are reported; non-trivial = DEFLATE stream decoded by the library; distinct by parameter tuple; bombs also in zlib and gzip framing; trailing comments filled with non-UTF-8 bytes; class max-ratio: one-run messages inflating to limit-1 / limit bytes (about 1007:1); class ratio-boundary (inflated length = 2..256 x compressed length); class nested-compression (compressed plaintext inside the ciphertext); white-space-only padding after the root; in every second worker process providers with limits of 64 MiB / 1 TiB / 7 bytes / MaxInt64 have handled messages first; class bloated-or-refused-twin: small messages behind runs of empty stored blocks or flushed after every byte (stream longer than the limit, expansion within it), and documents refused as received for a repeated attribute or a malformed tail after the root",
 		Assumptions: []string{"allocation bound has slack by design (measured 5.1 L + 0.8 MiB on the unchanged tree); within the limit the cost of parsing an accepted document is not asserted", "outcome classes are coarse: accepted / typed error key / signature stage / decode stage"}})
 }
 
@@ -335,7 +335,7 @@ func runC12(c *mon.Ctx) {
 		bk := 0
 		for _, L := range []int64{0, 100, 2048, 64 << 10} {
 			for ei, ep := range eps {
-				for _, variant := range []string{"empty-stored-blocks", "flush-per-byte", "repeated-attribute"} {
+				for _, variant := range []string{"empty-stored-blocks", "flush-per-byte", "repeated-attribute", "malformed-tail"} {
 					bk++
 					cs := c.Begin("bloated-or-refused-twin", bk)
 					if cs == nil {
@@ -357,13 +357,17 @@ func runC12(c *mon.Ctx) {
 					if n > 4096 {
 						n = 4096 // a small message: the stream's length comes from the empty blocks
 					}
-					if variant == "repeated-attribute" && n > 128 {
-						n -= 64 // room for the attributes added below
+					if (variant == "repeated-attribute" || variant == "malformed-tail") && n > 128 {
+						n -= 64 // room for what is added below
 					}
 					doc, signed, what := pad(ep.kind, n, "p")
-					if variant == "repeated-attribute" && int64(len(doc))+64 > eff {
+					if (variant == "repeated-attribute" || variant == "malformed-tail") && int64(len(doc))+64 > eff {
 						cs.Outcome("skipped-no-room")
 						continue
+					}
+					if variant == "malformed-tail" {
+						// a complete message followed by something no XML document may end with: refused as received
+						doc += []string{"\x00", "</x>", "<", "&", "<a>", "]]>\x01"}[bk%6]
 					}
 					if variant == "repeated-attribute" {
 						// not well-formed: refused as received, so refused compressed
